@@ -178,6 +178,24 @@ def truthHyp (a b : Img) (t : List Int) : Bool :=
     (lags a.shape b.shape).all fun l =>
       l == t || (decide (winEnergy a b.shape l ≤ wt) && winDiffers a b.shape l t)
 
+/-! ## an empty background
+
+The second sufficient scene hypothesis, without window energies: `b` is the window of zero-extended `a` at `t` **and `a`
+vanishes outside that window** (two overlapping windows of a scene that is zero outside their overlap; a tile that
+holds the only feature of a frame).  The cross-correlation of `a` and `b` at lag `l` is then the self-correlation of
+`a` at `l − t`, whose unique maximum is at zero for an image that is not identically zero
+(`PewTheorems.C12.register_zero_background`).  Linear in the image sizes, so the driver evaluates it on every route. -/
+
+/-- every non-zero pixel of `a` lies under `b` placed at `t` -/
+def supportUnder (a : Img) (sb : List Nat) (t : List Int) : Bool :=
+  (allIdx a.shape).all fun n => a.get n == 0 || inBoxI (List.zipWith (· - ·) (n.map Int.ofNat) t) sb
+
+/-- **zero background**: `t` is a lag of the lag box, `b` is the window of zero-extended `a` at `t`, every non-zero
+pixel of `a` lies under `b` placed at `t`, and `a` is not identically zero -/
+def zeroBgHyp (a b : Img) (t : List Int) : Bool :=
+  inLagBox a.shape b.shape t && isWindowOf a b t && supportUnder a b.shape t &&
+    (allIdx a.shape).any fun n => a.get n != 0
+
 /-! ## the decode that the code used before commit dfabb17 (regression documentation) -/
 
 /-- `fftshift` moves index `k` to `(k + s/2) mod s`; the old code returned that position minus `s/2` -/
@@ -222,6 +240,11 @@ open Pew.Overlap in
 /-- a window of `scene` (a function on canvas coordinates) as an input of `overlap_arrays` -/
 def window (scene : Idx → Rat) (off : List Int) (shape : List Nat) : Arr :=
   { off := off, shape := shape, get := fun i => some (scene (List.zipWith (· + ·) i off)) }
+
+open Pew.Overlap in
+/-- an image as an input of `overlap_arrays`, placed at `off` (what `overlap_arrays([a, b], [0, estimate])` receives) -/
+def placed (x : Img) (off : List Int) : Arr :=
+  { off := off, shape := x.shape, get := fun i => some (x.get (i.map Int.toNat)) }
 
 open Pew.Overlap in
 /-- specification of the merge of windows of one scene: the scene wherever a window covers the
